@@ -256,7 +256,12 @@ def _execute(ctx, spec):
                 return out
             if lang == 'numpymemmap':
                 for k in range(n):
-                    if not check_sub(out, None, np.asarray(ns['getsubarray'](k)), items[k], tag, f'getsubarray({k})'):
+                    try:
+                        sub = np.asarray(ns['getsubarray'](k))
+                    except Exception as e:
+                        out.viol('accessor-fails', tag, f'getsubarray({k}) of {n} subarrays raised {type(e).__name__}: {e}')
+                        break
+                    if not check_sub(out, None, sub, items[k], tag, f'getsubarray({k})'):
                         break
                 for nm in ('i', 'v'):
                     if isinstance(ns.get(nm), np.memmap) and ns[nm].flags.writeable:
